@@ -204,7 +204,7 @@ func init() {
 		q := e.freshVal(st, "decoded", rs.At(0).Type()).(*Term)
 		err := e.freshErr(st, false)
 		e.assume(Eq(Eq(IfTid(err), IntLit(0)), Neq(q, IntLit(0))))
-		e.assume(Implies(Neq(q, IntLit(0)), And(Not(Select(old.alloc, q)), Eq(App("rkind", SInt, q), IntLit(0)))))
+		e.assume(Implies(Neq(q, IntLit(0)), And(Not(Allocd(old.alloc, q)), Allocd(st.alloc, q), Eq(App("rkind", SInt, q), IntLit(0)))))
 		e.assume(Implies(Neq(q, IntLit(0)), e.wireFresh(st, old, q)))
 		return TupleVal{q, err}
 	})
@@ -380,7 +380,7 @@ func (e *Exec) frameOldObjects(st *State, old *Snapshot, mod map[string]Sort) {
 // existedIn: x is an object of the old state, or a sub-object/element of one
 func (e *Exec) existedIn(old *Snapshot, x *Term) *Term {
 	declFun("rroot", SInt, SInt)
-	return Select(old.alloc, App("rroot", SInt, x))
+	return Allocd(old.alloc, x)
 }
 
 // wireFresh: what the BER reader guarantees of a packet tree it returns
